@@ -329,6 +329,10 @@ func (c *Channel) onReadySession(now time.Time) error {
 		c.setNext(sessionEntry{})
 		return errors.New("session negotiated with wrong peer")
 	}
+	if c.remoteKey.IsZero() && !c.params.AcceptKey(&sessRemote) {
+		c.setNext(sessionEntry{})
+		return errors.New("key rejected")
+	}
 	c.remoteKey = se.Session.RemoteKey()
 	c.lastReceived = now
 	c.remoteTimestamp = se.Session.InitHelloTime()
